@@ -32,6 +32,7 @@ structure Wrap where
 inductive Callee
   | custom (fn : Nat)       -- index into the converter's custom function table (extend, map|FUNC, default)
   | method (m : Nat)        -- index into the method table (declared or generated)
+  | structMethod (name : S) -- a method of the (walked) source value itself: `source.Path.Name(ctx…)`
   deriving Repr, DecidableEq, Inhabited
 
 /-- one argument of a call, by role (generator.CallMethod) -/
@@ -97,6 +98,11 @@ mutual
         `wrapPtr` = some pointer was passed and the leaf is not a pointer: the leaf is passed on as a pointer;
         `leafNil` = the leaf itself is a pointer (passed on as it is, nil when a guard fails) -/
     | mapped (target : S) (path : List S) (derefs : List Bool) (guarded : Bool) (leafIsPtr : Bool)
+        (conv : Conv) (zero : ZeroCheck)
+    /-- assigned from a method of the source struct reached by `path`: `call` (a `.call (.structMethod _)` node) is
+        evaluated on the receiver inside the nil guards; its result (behind a fresh pointer when a guard exists and the
+        result is not a pointer itself, `resIsPtr`) feeds `conv` -/
+    | viaMethod (target : S) (path : List S) (derefs : List Bool) (guarded : Bool) (call : Conv) (resIsPtr : Bool)
         (conv : Conv) (zero : ZeroCheck)
     deriving Repr, Inhabited
 end
